@@ -76,3 +76,86 @@ for cname, val in (('ifvmode', 1), ('ifhmode', 0), ('ifinner', 1)):
          allocates=True, skip_frame=True, locals={'[]': 'list[Tok]'}, calls={'tex.processIfContent': 'TeX.processIfContent/bool'})
 P.unverified_surrounding("functional selection of processIfContent (which tokens are pushed back) against TeX's skipping machine: "
                          "bounded native comparison (bounded/ifcontent); if / ifx / ifcat token comparison and newif switches: not under contract")
+
+# ---------------------------------------------------------------------------------------------- which tokens are pushed back
+# TeX's skipping machine, stated over a ghost classification K of the stream tokens (0 other, 1 \if..., 2 \fi, 3 \else, 4 \or,
+# 5 \newif): S(k) token k is the argument of a \newif; D(k) nesting depth before token k; a separator is a top-level \else / \or,
+# the end is the first top-level \fi; C(k) number of separators before k; IDX(k) position of token k inside its case.
+P.uninterp('K', [], 'seq[int]')
+
+
+@P.spec(fuel=1)
+def S(k: 'int') -> 'bool':
+    return k >= 1 and k <= len(K()) and K()[k - 1] == 5 and not S(k - 1)
+
+
+@P.spec(fuel=1)
+def D(k: 'int') -> 'int':
+    if k <= 0:
+        return 0
+    return D(k - 1) + (1 if (K()[k - 1] == 1 and not S(k - 1)) else 0) - (1 if (K()[k - 1] == 2 and not S(k - 1) and D(k - 1) > 0) else 0)
+
+
+@P.spec
+def SEP(k: 'int') -> 'bool':
+    return (not S(k)) and D(k) == 0 and (K()[k] == 3 or K()[k] == 4)
+
+
+@P.spec
+def END(k: 'int') -> 'bool':
+    return (not S(k)) and D(k) == 0 and K()[k] == 2
+
+
+@P.spec(fuel=1)
+def C(k: 'int') -> 'int':
+    if k <= 0:
+        return 0
+    return C(k - 1) + (1 if SEP(k - 1) else 0)
+
+
+@P.spec(fuel=1)
+def IDX(k: 'int') -> 'int':
+    if k <= 0:
+        return 0
+    return 0 if SEP(k - 1) else IDX(k - 1) + 1
+
+
+@P.spec(fuel=1)
+def HE(k: 'int') -> 'bool':
+    """a top-level \\else occurs before position k"""
+    return k > 0 and (HE(k - 1) or (SEP(k - 1) and K()[k - 1] == 3))
+
+
+NAME = '("" if isnone(STREAM()[k].macroName) else unopt(STREAM()[k].macroName))'
+KREQ = ['len(K()) == len(STREAM())',
+        'all(not isnone(STREAM()[k]) and K()[k] == (5 if %s == "newif" else 1 if %s.startswith("if") else 2 if %s == "fi" else 3 if %s == "else" '
+        'else 4 if %s == "or" else 0) for k in range(len(STREAM())))' % (NAME, NAME, NAME, NAME, NAME)]
+POS = 'iterator.pos'
+INV_SEL = ['0 <= %s' % POS, '%s <= len(STREAM())' % POS, 'not S(%s)' % POS, 'nesting == D(%s)' % POS, 'nesting >= 0',
+           'all(not END(k) for k in range(%s))' % POS,
+           'len(cases) == C(%s) + 1' % POS, 'len(cases[len(cases) - 1]) == IDX(%s)' % POS,
+           'all(implies(not SEP(k), cases[C(k)][IDX(k)] is STREAM()[k]) for k in range(%s))' % POS,
+           'all(implies(SEP(k), len(cases[C(k)]) == IDX(k)) for k in range(%s))' % POS,
+           'all(0 <= C(k) and C(k) <= C(%s) and 0 <= IDX(k) for k in range(%s + 1))' % (POS, POS),
+           'all(implies(not SEP(k), IDX(k) < len(cases[C(k)])) for k in range(%s))' % POS,
+           'elsefound == HE(%s)' % POS, 'all(implies(SEP(k), C(k) < C(%s)) for k in range(%s))' % (POS, POS),
+           'fresh(cases)', 'all(fresh(cases[j]) and cases[j] is not cases for j in range(len(cases)))',
+           'all(cases[a] is not cases[b] for a in range(len(cases)) for b in range(a + 1, len(cases)))',
+           'ghost("npush") == 0', 'not correctly_terminated']
+P.fn(FT + 'TeX.processIfContent', name='TeX.processIfContent/select',
+     params=dict(self='TeX', which='int', debug='bool=False'), returns='none',
+     requires=['ghost("npush") == 0'] + KREQ,
+     raises={'StopIteration': 'True'},
+     ensures=['ghost("npush") == 1',
+              # the pushed tokens are exactly the tokens of the selected case, in order: every non-separator token k before the closing
+              # \\fi whose case number is the selector (or the last case when the selector is out of range) sits at position IDX(k)
+              'all(implies(not SEP(k) and C(k) == (which if (0 <= which and which < (C((iterator.pos - 1 if correctly_terminated else iterator.pos)) + 1 + (0 if HE((iterator.pos - 1 if correctly_terminated else iterator.pos)) else 1))) else (C((iterator.pos - 1 if correctly_terminated else iterator.pos)) + 1 + (0 if HE((iterator.pos - 1 if correctly_terminated else iterator.pos)) else 1)) - 1), IDX(k) < len(ghost("pushed")) and ghost("pushed")[IDX(k)] is STREAM()[k]) '
+              'for k in range((iterator.pos - 1 if correctly_terminated else iterator.pos)))',
+              # and nothing else: its length is the length of that case
+              'all(implies(SEP(k) and C(k) == (which if (0 <= which and which < (C((iterator.pos - 1 if correctly_terminated else iterator.pos)) + 1 + (0 if HE((iterator.pos - 1 if correctly_terminated else iterator.pos)) else 1))) else (C((iterator.pos - 1 if correctly_terminated else iterator.pos)) + 1 + (0 if HE((iterator.pos - 1 if correctly_terminated else iterator.pos)) else 1)) - 1), len(ghost("pushed")) == IDX(k)) for k in range((iterator.pos - 1 if correctly_terminated else iterator.pos)))',
+              'implies((which if (0 <= which and which < (C((iterator.pos - 1 if correctly_terminated else iterator.pos)) + 1 + (0 if HE((iterator.pos - 1 if correctly_terminated else iterator.pos)) else 1))) else (C((iterator.pos - 1 if correctly_terminated else iterator.pos)) + 1 + (0 if HE((iterator.pos - 1 if correctly_terminated else iterator.pos)) else 1)) - 1) == C((iterator.pos - 1 if correctly_terminated else iterator.pos)), len(ghost("pushed")) == IDX((iterator.pos - 1 if correctly_terminated else iterator.pos)))',
+              'implies((which if (0 <= which and which < (C((iterator.pos - 1 if correctly_terminated else iterator.pos)) + 1 + (0 if HE((iterator.pos - 1 if correctly_terminated else iterator.pos)) else 1))) else (C((iterator.pos - 1 if correctly_terminated else iterator.pos)) + 1 + (0 if HE((iterator.pos - 1 if correctly_terminated else iterator.pos)) else 1)) - 1) > C((iterator.pos - 1 if correctly_terminated else iterator.pos)), len(ghost("pushed")) == 0)'],
+     allocates=True, skip_frame=True, heap_consts=True, solver_ms=90000, locals={'cases': 'list[list[Tok]]', '[]': 'list[Tok]'},
+     calls={'self.itertokens': 'TeX.itertokens', 'self.pushTokens': 'TeX.pushTokens', 'next': 'TokIter.__next__'},
+     loops={0: Loop(inv=INV_SEL, at_end=['unfold(%s(iterator.pos%s)) == %s(iterator.pos%s)' % (f, d, f, d) for f in ('S', 'HE', 'D', 'C', 'IDX') for d in ('', ' - 1')],
+                    modifies=[Mod('list:Tok', 'fresh(r)'), Mod('list:list[Tok]', 'fresh(r)'), Mod('pos', 'r is iterator')])})
